@@ -403,10 +403,23 @@ class Promise(BaseDeferred):
         if not self.settled:
             not_ready()
             raise Exception(f"Promise {self!r} is not ready")  # pragma: no cover
-        return self.value
+        value = self.value
+        if isinstance(value, Deferred) and not value.settled:
+            # Either the final value or, if that is not available (yet), no
+            # value at all: handing out the intermediate deferred object would
+            # put the same unknown into polynomials under a second key.
+            return value.wait()
+        return value
 
     def get_current_best_estimate(self):
+        # While the promised value is itself still being worked out (a link
+        # base that mentions labels defined later), keep the promise as the
+        # variable of linear polynomials: otherwise the same unknown appears
+        # under two different keys and 'K + end - start' no longer cancels.
         if self.settled:
-            return self.value
-        else:
-            return self
+            value = self.value
+            if isinstance(value, BaseDeferred):
+                value = value.get_current_best_estimate()
+            if not isinstance(value, BaseDeferred):
+                return value
+        return self
